@@ -155,6 +155,56 @@ class Lvl2(Lvl1):
 class Lvl3(Lvl2):
     z: int = 0
 
+class GNT(NamedTuple, Generic[TV]):
+    x: TV
+    xs: List[TV]
+    o: Optional[TV] = None
+
+class GTD(TypedDict, Generic[TV]):
+    x: TV
+    m: Dict[str, TV]
+    o: NotRequired[Optional[TV]]
+
+class GN2(NamedTuple, Generic[TV]):
+    x: TV
+    o: Optional[TV] = None
+
+class GT2(TypedDict, Generic[TV]):
+    x: TV
+
+@dataclass
+class HoldGen(Generic[TV], DataClassDictMixin):
+    nt: GN2[TV]
+    td: Optional[GT2[List[TV]]] = None
+
+class SEnum(enum.StrEnum):
+    A = "a"
+    B = "b"
+
+TVB = TypeVar("TVB", bound=datetime.date)
+TVC = TypeVar("TVC", int, datetime.date)
+
+@dataclass
+class GenB(Generic[TVB], DataClassDictMixin):
+    b: TVB
+    bs: List[TVB] = field(default_factory=list)
+
+@dataclass
+class GenC(Generic[TVC], DataClassDictMixin):
+    c: TVC
+    cs: Tuple[TVC, ...] = ()
+
+@dataclass(slots=True)
+class Slotted(DataClassDictMixin):
+    a: int
+    d: Optional[datetime.date] = None
+    xs: List[int] = field(default_factory=list)
+
+@dataclass(frozen=True)
+class Frozen(DataClassDictMixin):
+    a: int
+    u: UUID = UUID(int=2)
+
 class SType(SerializableType):
     def __init__(self, v):
         self.v = v
@@ -235,6 +285,22 @@ EXTRA = [
     ("opt_tvar_opt", "Optional[Tuple[Optional[int], ...]]", ()), ("list_opt_date", "List[Optional[datetime.date]]", ()),
     ("dict_opt", "Dict[str, Optional[int]]", ()), ("opt_nto", "Optional[NTO]", ()), ("opt_tdo", "Optional[TDO]", ()),
     ("opt_tfix_opt", "Optional[Tuple[int, Optional[datetime.date]]]", ()),
+    # generic NamedTuple / TypedDict specialisations (type parameters in nested positions), also below a generic dataclass
+    ("gnt_date", "GNT[datetime.date]", ()), ("gtd_date", "GTD[datetime.date]", ()), ("gnt_int", "GNT[int]", ("thorough",)),
+    ("holdgen_date", "HoldGen[datetime.date]", ()), ("list_gnt", "List[GNT[datetime.date]]", ("thorough",)),
+    ("opt_gtd", "Optional[GTD[UUID]]", ("thorough",)),
+    # bound / constrained type variables, specialised and bare
+    ("genb_date", "GenB[datetime.date]", ("thorough",)), ("genc_date", "GenC[datetime.date]", ()),
+    ("genc_int", "GenC[int]", ("thorough",)),
+    ("slotted", "Slotted", ()), ("frozen", "Frozen", ("thorough",)), ("list_slotted", "List[Slotted]", ("thorough",)),
+    # leaves of the registry not in the main leaf list
+    ("strenum", "SEnum", ()), ("litstr", "LiteralString", ()), ("ip6", "IPv6Address", ("thorough",)), ("ip4n", "IPv4Network", ("thorough",)),
+    ("ip6i", "IPv6Interface", ("thorough",)), ("purepath", "PurePath", ("thorough",)), ("cpath", "Path", ("thorough",)),
+    ("pwin", "pathlib.PureWindowsPath", ()),
+    ("aset", "AbstractSet[datetime.date]", ()), ("mset", "typing.MutableSet[int]", ("thorough",)),
+    ("mseq", "typing.MutableSequence[datetime.date]", ("thorough",)), ("mmap", "MutableMapping[str, datetime.date]", ()),
+    ("coll_abc_seq", "collections.abc.Sequence[datetime.date]", ("thorough",)), ("pep585", "dict[str, list[datetime.date]]", ("thorough",)),
+    ("pep604", "list[int | None] | None", ()), ("dict_uuid_key", "Dict[UUID, datetime.date]", ("thorough",)),
     ("tuple_empty", "Tuple[()]", ()),
     ("tuple_bare", "tuple", ("any",)),
     ("list_bare", "list", ("any",)),
@@ -242,8 +308,16 @@ EXTRA = [
 ]
 
 
+def _dev(xs):
+    """development aid: VF_SCHEMAS=<regex> restricts every schema list before harnesses are generated"""
+    import os
+    import re
+    pat = os.environ.get("VF_SCHEMAS")
+    return [x for x in xs if re.search(pat, x.name)] if pat else xs
+
+
 def leaf_schemas():
-    return [Schema("L_" + n, t, COMMON_PRELUDE, tags) for n, t, tags in LEAVES]
+    return _dev([Schema("L_" + n, t, COMMON_PRELUDE, tags) for n, t, tags in LEAVES])
 
 
 def _ok(cn, ctags, ln, ltags):
@@ -264,7 +338,7 @@ def depth2(leaves=None):
                 continue
             out.append(Schema("C_%s_%s" % (cn, ln), ct.replace("{X}", lt), COMMON_PRELUDE,
                               set(ctags) | set(ltags)))
-    return out
+    return _dev(out)
 
 
 def depth3(seed, count):
@@ -289,18 +363,20 @@ def depth3(seed, count):
                                  COMMON_PRELUDE, set(g1) | set(g2) | set(ltags)))
     rnd = random.Random(seed)
     rnd.shuffle(combos)
-    return combos[:count]
+    return _dev(combos[:count])
 
 
-def extras():
-    return [Schema("X_" + n, t, COMMON_PRELUDE, tags) for n, t, tags in EXTRA]
+def extras(tier="thorough"):
+    """entries tagged ``thorough`` are left to the thorough tier"""
+    return _dev([Schema("X_" + n, t, COMMON_PRELUDE, tags) for n, t, tags in EXTRA
+                 if tier != "quick" or "thorough" not in tags])
 
 
 def grammar(tier, seed):
     """quick: all leaves, every constructor over a reduced leaf set, extras, a seeded slice of depth 3.
     thorough: full depth-2 cross product + a larger depth-3 slice."""
     if tier == "quick":
-        s = leaf_schemas() + depth2(D2_LEAVES[:3]) + extras() + depth3(seed, 12)
+        s = leaf_schemas() + depth2(D2_LEAVES[:3]) + extras("quick") + depth3(seed, 12)
     else:
         s = leaf_schemas() + depth2() + extras() + depth3(seed, 150)
     seen = set()
